@@ -354,6 +354,7 @@ def dense_oracles(ctx, quick):
             if N >= 1:
                 zz = mps.zipper(O, a, opts_svd={'tol': 1e-14}, normalize=False)
                 chk('zipper(O,a)', dvec(zz, ops), MO @ va, exact=False)
+                chk('zipper(O,a) with default options', dvec(mps.zipper(O, a, normalize=False), ops), MO @ va, exact=False)
                 z2 = mps.zipper(3 * O, a, opts_svd={'tol': 1e-14}, normalize=False)
                 chk('zipper(3*O,a)', dvec(z2, ops), 3 * (MO @ va), exact=False)
                 z3 = mps.zipper(O, P, opts_svd={'tol': 1e-14}, normalize=False)
